@@ -3,7 +3,8 @@
    error or panic in one tokio task leaves the process and the other tasks intact is runtime
    behaviour: observed by `bin/check C10` (process alive, other connections answered correctly while
    and after each hostile stream), not proved. *)
-From BC Require Import Resp.Frame Resp.Conn Resp.Handler Resp.HandlerProofs Resp.FrameProofs.
+From BC Require Import Resp.Frame Resp.Conn Resp.Handler Resp.HandlerProofs Resp.FrameProofs Resp.OverEngine.
+From BC Require Store.Engine.
 
 (* 1. Whatever bytes arrive, in whatever pieces, the connection layer hands the handler only frames
       followed by exactly one clean end, reset or frame error — never a panic, an abort (stack,
@@ -44,3 +45,12 @@ Example C10_example :
   let '(out, m, t) := handler_from [] [[42; 51; 13; 10; 36; 51; 13; 10; 83; 69; 84; 13; 10; 36; 50; 13; 10; 104; 107; 13; 10; 36; 50; 13; 10; 104; 118; 13; 10; 0; 1; 13; 10]%N] in
   out = [43; 79; 75; 13; 10]%N /\ kv_get m [104; 107]%N = Some [104; 118]%N /\ t = TFrameErr BadEncoding.
 Proof. vm_compute. repeat split. Qed.
+
+(* ... over the storage ENGINE (Resp/OverEngine.v): on arbitrary bytes in arbitrary pieces the loop running over
+   the engine model does not panic, and the engine ends in a state that satisfies its invariant and denotes the
+   map changed by exactly the accepted commands — a hostile connection reaches the files only through them. *)
+Theorem C10_over_engine : forall c segs,
+  let '(out, s', t) := handle_e c Store.Engine.init (read_all (fixed Release) segs []) [] in
+  t <> TPanic /\ denotes s' (apply_all [] (accepted (read_all (fixed Release) segs []))).
+Proof. exact hostile_over_engine. Qed.
+Print Assumptions C10_over_engine.
